@@ -46,6 +46,8 @@ def parseOp (kind : Kind) : Sexp → Option Op
   | .list [.atom "itemstop", t] => do pure (.itemsTop (← bytes? t))
   | .list [.atom "fullitems", t] => do pure (.fullItems (← bytes? t))
   | .list [.atom "trim", t] => do pure (.trim (← bytes? t))
+  | .list [.atom "badput", k] => do pure (.bad false (← bytes? k))
+  | .list [.atom "badpin", k] => do pure (.bad true (← bytes? k))
   | _ => none
 
 def c24 (kind : Kind) (fs : List Sexp) : Option Sexp := do
@@ -79,9 +81,10 @@ def parseQOp (keys : List Bytes) : Sexp → Option MOp
   | .list [.atom "sync", i, f] => do pure (.a (← keys[(← nat? i)]?) (.sync (← bool? f)))
   | .list (.atom "reopen" :: pres) => do
     let ps ← pres.mapM fun
-      | .list vs => vs.mapM parseVal
+      | .list vs => do pure (some (← vs.mapM parseVal))
+      | .atom "keep" => some none
       | _ => none
-    pure (.reopen (fun k => match (keys.zip ps).find? (fun p => p.1 == k) with | some p => p.2 | none => []))
+    pure (.reopen (fun k => match (keys.zip ps).find? (fun p => p.1 == k) with | some p => p.2 | none => some []))
   | _ => none
 
 def outQRes : QRes → Sexp
@@ -105,7 +108,7 @@ def c23 (kind : QKind) (fs : List Sexp) : Option Sexp := do
     | some p => p.1
     | none => 1000000 + b.length
   -- building the Hold injects a fresh queue at every key of the (empty) store
-  let (db0, ms0, _) := injectAll cls kind (fun _ => []) keys [] (fun _ => ⟨[], true⟩)
+  let (db0, ms0, _) := injectAll cls kind (fun _ => some []) keys [] (fun _ => ⟨[], true⟩)
   let out := mrun cls kind keys db0 ms0 ops
   some (.list (out.map fun (r, obs) => Sexp.list [outQRes r, .list (obs.map fun (m, d) => Sexp.list [.list (m.map ofBytes), outDur d])]))
 
@@ -113,6 +116,7 @@ def handle : Sexp → Sexp
   | .list (.atom "plain" :: fs) => (c24 .plain fs).getD (sym "bad-request")
   | .list (.atom "io" :: fs) => (c24 .io fs).getD (sym "bad-request")
   | .list (.atom "ioset" :: fs) => (c24 .ioset fs).getD (sym "bad-request")
+  | .list (.atom "oracleonly" :: _) => sym "oracle-only"
   | .list (.atom "durq" :: fs) => (c23 .durq fs).getD (sym "bad-request")
   | .list (.atom "dusq" :: fs) => (c23 .dusq fs).getD (sym "bad-request")
   | _ => sym "bad-request"
